@@ -55,7 +55,7 @@ pub(crate) fn run() -> Result<(), Error> {
     // (Actually it's most important for the primary target, since it's the one
     // who initiated the OOB in the first place.)
     let status = Command::new("redo-ifchange")
-        .args(deps.iter().cloned())
+        .arg(&target)
         .env(ENV_NO_OOB, "1")
         .env(ENV_UNLOCKED, "1")
         .spawn()?
